@@ -1881,7 +1881,7 @@ int yylex () {
                   yylval.number = '\n';
                   current_line++;
                   total_lines++;
-                  if ((outptr = last_nl + 1))
+                  if (outptr == last_nl + 1)
                     refill_buffer ();
                   break;
                 default:
